@@ -236,17 +236,22 @@ def gen_misuse(rng, models, state):
     nm = len(models)
     order = list(MISUSE)
     rng.shuffle(order)
-    if rng.random() < 0.6:      # kinds with narrow preconditions first
-        rare = ['second_objective', 'foreign_adapt_ldr', 'cross_maxof', 'cross_matmul_rvar', 'cross_st_cone', 'cross_st_piecewise',
-                'foreign_second_in_list', 'cross_kldiv', 'foreign_amb_forall', 'foreign_amb_forall_explin', 'foreign_amb_forall_exppw', 'foreign_set_forall', 'foreign_amb_objective', 'foreign_expt', 'foreign_prob',
-                'foreign_supp', 'ambiguity_after_constraints', 'read_failed', 'foreign_adapt']
-        rng.shuffle(rare)
+    if rng.random() < 0.7:
+        # kinds with narrow preconditions first, rarest first (a random cut keeps the head of the list from monopolising)
+        rare = ['foreign_amb_forall', 'foreign_amb_forall_exppw', 'foreign_amb_forall_explin', 'foreign_prob', 'foreign_amb_objective',
+                'foreign_set_forall', 'foreign_adapt_ldr', 'foreign_expt', 'foreign_second_in_list', 'foreign_set_minmax',
+                'cross_kldiv', 'ambiguity_after_constraints', 'foreign_adapt', 'foreign_supp', 'cross_mul_rvar', 'cross_add_rvar',
+                'concat_dvar_rvar', 'cross_matmul_rvar', 'cross_maxof', 'second_objective', 'cross_st_piecewise']
+        cut = rng.randrange(len(rare))
+        rare = rare[cut:] + rare[:cut] if rng.random() < 0.5 else rare
         order = rare + [k for k in order if k not in rare]
     first = list(range(nm))
     rng.shuffle(first)          # the misused model is drawn first (uniformly), then the kind of misuse
     for a, kind in [(a_, k_) for a_ in first for k_ in order]:
         others = [b_ for b_ in range(nm) if b_ != a]
         rng.shuffle(others)
+        if kind == 'cross_kldiv':
+            others.sort(key=lambda b_: 0 if models[b_].get('ldr') else 1)       # a decision rule as reference, if there is one
         for b in others:
             A, B, sa, sb = models[a], models[b], state[a], state[b]
             pa, pb = A['pre'], B['pre']
@@ -292,9 +297,12 @@ def gen_misuse(rng, models, state):
                 zb = ['i', ['v', pb + rng.choice(b_rv)], [0, 1]]
                 return [dict(mk, op='expr', id='bad', e=['@', xa, zb] if rng.random() < 0.5 else ['@', zb, xa])]
             if kind == 'cross_kldiv' and a_dv and b_dv and A['kind'] in ('ro', 'gcp') and B['kind'] in ('ro', 'gcp'):
-                na, nb = dict(A['dvars'])[a_dv[0]], dict(B['dvars'])[b_dv[0]]
-                if na == nb and na > 1:
-                    return [dict(mk, op='call', obj=['v', pa + a_dv[0]], meth='kldiv', args=[['v', pb + b_dv[0]], 0.1], to='bad')]
+                match = [(x_, y_) for x_ in a_dv for y_ in b_dv if dict(A['dvars'])[x_] == dict(B['dvars'])[y_]]
+                if B.get('ldr') and 'y' in b_dv and a_dv:
+                    match = [(a_dv[0], 'y')]       # a decision RULE as reference distribution (sizes need not match to be rejected)
+                if match:
+                    x_, y_ = rng.choice(match)
+                    return [dict(mk, op='call', obj=['v', pa + x_], meth='kldiv', args=[['v', pb + y_], 0.1], to='bad')]
             if kind == 'cross_st_cone' and pa + 'm' in sa['built'] and b_dv and A['kind'] not in ('lp',) and \
                     B['kind'] in ('ro', 'socp', 'gcp'):
                 xb = ['v', pb + rng.choice([n_ for n_ in b_dv if n_ != 'y'] or b_dv)]        # y may be 2-D
